@@ -51,6 +51,24 @@ def align(actual, spec):
     return rec(0, 0)
 
 
+def fresh_segments(ctx):
+    """ownership clause for the calls of next(): next() writes the projection into both segments it is given and the result
+    keeps them, so every call must get segment objects created for it - after the start of the innermost loop iteration that
+    makes the call, and shared with no other call"""
+    mark, ok, seen = 0, True, set()
+    for e in ctx.events:
+        if e.kind == 'iter-begin':
+            mark = getattr(e, 'mark', 0)
+        elif e.kind == 'next':
+            for k in ('edge_m', 'edge_o'):
+                o = e.call[k]
+                if not isinstance(o, Obj) or o.oid <= mark or o.oid in seen:
+                    ok = False
+                else:
+                    seen.add(o.oid)
+    return ok
+
+
 def vc_match_states(prog, state_kind='edge', family='base'):
     """One arbitrary live predecessor `m` of column obs_idx-1 (node or edge state)."""
     fv = prog.func(K.BASE, 'BaseMatcher._match_states')
@@ -209,6 +227,7 @@ def vc_match_states(prog, state_kind='edge', family='base'):
             else:
                 i += 1
         g.append(('insert:each-candidate-once-and-only-candidates', b2z(ok_ins)))
+        g.append(('fresh:each-call-gets-its-own-segment-objects', b2z(fresh_segments(ctx))))
         g.append(('insert:candidate-unchanged', b2z(zand(*[eq(c['result'].f['delayed'], c['delayed0']) for c in calls if c['result'] is not None]))))
         # --- C04 call-site precondition of next(): only moves the map offers
         for j, c in enumerate(calls):
@@ -419,6 +438,7 @@ def vc_ne_end(prog, state_kind='edge', family='base'):
             return zand(c['self'] is m, target(c), eo.f['l2'] is None and eo.f['p2'] is None, eq(eo.f['p1'], obs_next),
                         eq(c['obs'], obs_idx), eq(c['obs_ne'], 0))
         g.append(('ne-end:one-emitting-call-for-the-next-observation-per-admissible-neighbour', b2z(align(calls, [(cond, call_ok)]))))
+        g.append(('fresh:each-call-gets-its-own-segment-objects', b2z(fresh_segments(ctx))))
         for j, c in enumerate(calls):
             g.append((f'walk:call{j}-is-a-move-the-map-offers', _is_move(pm, c['edge_m'].f)))
         # writes into the next column's emitting layer
@@ -535,6 +555,7 @@ def vc_ne_inner(prog, state_kind='edge', family='base'):
             return zand(c['self'] is m, target(c), eo.f['l2'] is not None, eq(eo.f['p1'], obs), eq(eo.f['p2'], obs_next),
                         eq(c['obs'], obs_idx), eq(c['obs_ne'], nb_ne))
         g.append(('ne-inner:one-non-emitting-call-with-the-observation-segment-per-admissible-neighbour', b2z(align(calls, [(cond, call_ok)]))))
+        g.append(('fresh:each-call-gets-its-own-segment-objects', b2z(fresh_segments(ctx))))
         for j, c in enumerate(calls):
             g.append((f'walk:call{j}-is-a-move-the-map-offers', _is_move(pm, c['edge_m'].f)))
         if calls and calls[0]['result'] is not None:
